@@ -200,10 +200,6 @@ Definition re_toy (p s : string) : bool := existsb (fun a => re_alt a s) (split_
 Definition float_toy (s : string) : option Q := match parse_dec s with Some d => Some (dec_Q d) | None => None end.
 Fixpoint hash_toy (s : string) : Z := match s with EmptyString => 7%Z | String c r => (Z.of_N (N_of_ascii c) + 31 * hash_toy r)%Z end.
 
-Definition row_of_irow (r : irow) : row :=
-  [("date", VStr (r_date r)); ("key", VStr (r_key r)); ("val", VStr (r_val r)); ("trace_id", VStr (r_trace r));
-   ("span_id", VStr (r_span r)); ("timestamp_ns", VInt (r_ts r)); ("duration", VInt (r_dur r))].
-
 (* the rows of the CTE index_grouped of a search statement: which traces, which spans *)
 Fixpoint eval_until (c : ctx) (d : db) (target : string) (withs : list (string * select)) (cte : env) : option table :=
   match withs with
